@@ -4,6 +4,7 @@ mod c04;
 mod c05;
 mod c07;
 mod c08;
+mod c09;
 mod c11;
 mod c12;
 mod c13;
@@ -32,6 +33,7 @@ fn main() {
                 "C05" => c05::replay(cases, verd),
                 "C07" => c07::replay(cases, verd),
                 "C08" => c08::replay(cases, verd),
+                "C09" => c09::replay(cases, verd),
                 "C12" => c12::replay(cases, verd),
                 "C13" => c13::replay(cases, verd),
                 "C14" => c14::replay(cases, verd),
@@ -55,6 +57,7 @@ fn main() {
                 "C01" => c01::record(seed, n, out),
                 "C04" => c04::record(seed, n, out, args.get(6).and_then(|s| s.parse().ok()).unwrap_or(300)),
                 "C05" => c05::record(seed, n, out, args.get(6).and_then(|s| s.parse().ok()).unwrap_or(12)),
+                "C09" => { let _ = (seed, n); c09::record(&args[6], out) }
                 "C08" => c08::record(seed, n, out, args.get(6).and_then(|s| s.parse().ok()).unwrap_or(200)),
                 "C11" => c11::record(&args[6], seed, n, out),
                 "C13" => c13::record(seed, n, out),
